@@ -137,11 +137,23 @@ func gen(r *sim.Rng, tier string) *sim.Case {
 	}
 	c := &sim.Case{Params: map[string]int{}}
 	nKeys = []int{4, 4, 4, 4, 4, 4, 4, 8, 8, 16}[r.N(10)]
+	if r.Pct(2) {
+		nKeys = 32
+	}
+	if r.Pct(2) {
+		nKeys = []int{70, 100, 130}[r.N(3)] // rare: a map larger than any plausible batch size
+		c.Params["init_pct"] = r.Range(50, 100)
+	}
 	c.Params["nkeys"] = nKeys
-	c.Params["init_mask"] = r.N(1 << nKeys)
+	if nKeys <= 32 {
+		c.Params["init_mask"] = r.N(1 << nKeys)
+	}
 	nT := r.Range(2, maxT)
 	if r.Pct(10) {
 		nT = 1
+	}
+	if r.Pct(3) {
+		nT, maxOps = r.Range(6, 8), 2
 	}
 	// swarm: a random subset of methods gets weight
 	w := make([]int, len(opNames))
@@ -179,7 +191,7 @@ func gen(r *sim.Rng, tier string) *sim.Case {
 				}
 			case "GetWithMap":
 				seen := map[int]bool{}
-				for j := r.Range(1, 3); j > 0; j-- {
+				for j := r.Range(1, 3) + r.Pick(9, 1)*r.N(nKeys); j > 0; j-- {
 					k := r.N(nKeys)
 					if !seen[k] {
 						seen[k] = true
@@ -191,6 +203,9 @@ func gen(r *sim.Rng, tier string) *sim.Case {
 				op.Ks = []int{a, (a + 1 + r.N(nKeys-1)) % nKeys}
 			case "Range", "All":
 				op.D = r.N(4) // 0 = full
+				if r.Pct(15) {
+					op.D = r.N(nKeys + 1)
+				}
 			}
 			prog = append(prog, op)
 		}
@@ -207,8 +222,8 @@ func setKeys(c *sim.Case) {
 	if nKeys < 4 {
 		nKeys = 4
 	}
-	if nKeys > 16 {
-		nKeys = 16
+	if nKeys > 130 {
+		nKeys = 130
 	}
 }
 
@@ -216,7 +231,13 @@ func build(c *sim.Case) enga.Instance {
 	setKeys(c)
 	x := &inst{m: mapz.NewSafeKV[int, int](r2(c.P("init_mask"))), init: map[int]int{}}
 	for k := 0; k < nKeys; k++ {
-		if c.P("init_mask")&(1<<k) != 0 {
+		present := false
+		if nKeys <= 32 {
+			present = c.P("init_mask")&(1<<k) != 0
+		} else {
+			present = (k*37+11)%100 < c.P("init_pct")
+		}
+		if present {
 			v := 0xF00 + k
 			x.m.Set(k, v)
 			x.init[k] = v
